@@ -244,6 +244,15 @@ def run_extraction(h: Harness, nodes: list[Node], stream: str, n_extract: int, e
                 if set(g.alternatives.get(n.cls, [])) != {k.cls for k in n.children}:
                     raise InfraError(f"C19 generator assumption broken: alternatives of {n.name} for {desc}")
         gw = g.get_weights()
+        # (the start symbol and the base types are members of no rule: a table that leaves them out says the same as one that lists them
+        # with the default weight; every member of a rule must be listed)
+        in_rules = {p_ for ps in g.alternatives.values() for p_ in ps}
+        missing = [n.name for n in nodes if n.cls in in_rules and n.cls not in gw]
+        if missing:
+            h.fail("Grammar.get_weights", "weights-not-normalised", f"get_weights() lists no weight for the production(s) {missing} of {desc}", [desc, "missing"])
+            return None
+        from geneticengine.grammar.decorators import get_gengy
+        gw = {**{n.cls: get_gengy(n.cls).get("weight", 1.0) for n in nodes if n.cls not in gw}, **({int: 1.0} if int not in gw else {}), **gw}
         ws = [Fraction(gw[n.cls]) for n in nodes] + [Fraction(gw[int])]
         ws_sx = [frac_sx(w) for w in ws]
         results.append(["ok", ws_sx])
@@ -447,6 +456,11 @@ def check_programs(h: Harness):
     grammars.append((gram.Spec([C("A0", True, None), C("Silent", False, 0, [("k", r03)], weight=0), C("Lit", False, 0, [("k", r03)], weight=2),
                                 C("Use", False, 0, [("u", ("union", ("cls", 1), ("cls", 2))), ("e", ("cls", 0)), ("v", ("union", ("cls", 2), ("cls", 1)))], weight=3),
                                 C("Neg", False, 0, [("e", ("cls", 0)), ("w", ("union", ("cls", 1), ("cls", 2)))], weight=1)], 0, [1, 2, 3, 4]), {1}, ("progressive",)))
+    # a Union field over PARENTLESS concrete classes (members of no rule), one of them switched off; a deeper production keeps the holder
+    # from being the last resort
+    grammars.append((gram.Spec([C("A0", True, None), C("Silent", False, None, [("k", r03)], weight=0), C("Loud", False, None, [("k", r03)], weight=1),
+                                C("Lit", False, 0, [("k", r03)]), C("Use", False, 0, [("u", ("union", ("cls", 1), ("cls", 2))), ("e", ("cls", 0))]),
+                                C("Deep", False, 0, [("a", ("cls", 0)), ("b", ("cls", 0))])], 0, [3, 4, 5, 1, 2]), {1}, ("progressive", "stack")))
     # expansion depthing: a weighted NESTED abstract type whose only production is the deepest class of the grammar (the abstract type
     # is then deeper than every concrete class), beside a switched-off production; also with the deep class two levels down
     grammars.append((gram.Spec([C("Stmt", True, None), C("Halt", False, 0, [], weight=0), C("Skip", False, 0, [], weight=1),
